@@ -324,6 +324,20 @@ def K():
     return Program(m, ['e0', 'eb', 'ed1', 'ed2'], evt_base={'ed1': 'eb', 'ed2': 'ed1'})
 
 
+def Kd():
+    """a Kleene row whose action is Defer (conditional deferral of every event type): the deferred occurrence keeps its
+    dynamic type and its payload until a later state consumes it"""
+    m = Machine('Kd', [['K0', 'K1']], [],
+                [Row('K0', '*', None, 'defer', guard=1),
+                 Row('K0', 'e0', 'K1', act=1, guard=2),
+                 Row('K1', 'e1', None, act=2),
+                 Row('K1', 'e2', None, act=3),
+                 Row('K1', 'e0', 'K0', act=4, guard=3)])
+    p = Program(m, ['e0', 'e1', 'e2'])
+    p.sm_extra = {'Kd': 'typedef int activate_deferred_events;'}
+    return p
+
+
 def G1():
     """functor front-end: And_/Or_/Not_ guard expressions (short circuit, precedence by nesting) and ActionSequence_"""
     m = Machine('G1', [['A', 'B']],
@@ -356,7 +370,7 @@ def _pol(base, pol):
     return p
 
 
-CATALOG = {f.__name__: f for f in (Q, Q1, Q2, D, Dr, Da, K, FL3, G1, F1, R2, R3, H2, H3, X, HIn, HIa, HIs, A, Ai, T, FL)}
+CATALOG = {f.__name__: f for f in (Q, Q1, Q2, D, Dr, Da, K, Kd, FL3, G1, F1, R2, R3, H2, H3, X, HIn, HIa, HIs, A, Ai, T, FL)}
 
 POLICIES = ['after_entry', 'after_transition_action', 'after_exit', 'before_transition']
 for _b in (F1, R2, H2):
